@@ -1,3 +1,4 @@
+import SieveModel.Generated.LexRules
 import SieveModel.Model.Serialize
 import SieveModel.Model.Lexer
 import SieveModel.Lemmas.Printable
@@ -54,5 +55,10 @@ theorem accepted_script_can_be_printed (T : Table) (hT : Printable.TableP T) (te
 theorem accepted_script_can_be_printed_live (text : Bytes) (prev : PState) (r : List Node)
     (h : Machine.parse Generated.builtinTable text prev = .accept r) : ∃ out, Ser.script Generated.builtinTable r = some out :=
   accepted_script_can_be_printed _ live_table_printable text prev r h
+
+/-- the lexer rules of `sievelib/parser.py` (names, order, patterns, flags, white space) are the modelled ones -/
+theorem lexer_is_the_modelled_one :
+    Generated.lexRuleNames = TokKind.all.map TokKind.name ∧ Generated.lexRulePatterns = TokKind.patterns ∧
+      Generated.parserPatterns = TokKind.auxPatterns := by decide
 
 end C04
